@@ -1,4 +1,5 @@
 use crate::delta::{DiffType, Source, State, StateMachine};
+use crate::handlers::diff_header::BINARY_FILE_SUFFIX;
 use crate::utils::path::relativize_path_maybe;
 
 impl StateMachine<'_> {
@@ -31,11 +32,11 @@ impl StateMachine<'_> {
 
             if self.minus_file != "/dev/null" {
                 relativize_path_maybe(&mut self.minus_file, self.config);
-                self.minus_file.push_str(" (binary file)");
+                self.minus_file.push_str(BINARY_FILE_SUFFIX);
             }
             if self.plus_file != "/dev/null" {
                 relativize_path_maybe(&mut self.plus_file, self.config);
-                self.plus_file.push_str(" (binary file)");
+                self.plus_file.push_str(BINARY_FILE_SUFFIX);
             }
             return Ok(true);
         }
